@@ -410,9 +410,9 @@ class C10:
         twin_t = None
         if spec["nt"] >= 2 and r.random() < 0.5:
             twin_t = r.randrange(spec["nt"])
-            spec["target_active"] = [a and j != twin_t for j, a in enumerate(spec["target_active"])]
-            if not any(spec["target_active"]):
-                spec["target_active"][(twin_t + 1) % spec["nt"]] = True
+            spec["target_active"] = [True] * spec["nt"]
+            # the target is active when the optimizer is built (iteration 0 is logged with it) and is switched off before
+            # the first call of the history (in execute); from then on its output must not matter
         case["twin_target"] = twin_t
         return case
 
@@ -433,16 +433,24 @@ class C10:
             if exc is not None:
                 return {"violation": None, "nontrivial": False, "stats": {"construction_failed": 1}, "extra": {}, "trace_digest": None}
             w = val
-            twin = OWorld(ctx.xd, spec, twist=(tt, 2.5)) if tt is not None else None
+            twin = None
+            if tt is not None:
+                twin, exc = call(lambda: OWorld(ctx.xd, spec, twist=(tt, 2.5)))
+                if exc is not None:
+                    twin = None
+            n_dis = None        # log length when the twin target was switched off; rows before it legitimately differ
             if twin is not None:
-                # the construction row was logged before the target was switched off: start both logs afresh, so that
-                # no row (and no reload of a row) has the twisted target active
-                w.opt.clear_log()
-                twin.opt.clear_log()
+                w.opt.disable(target=tt)
+                twin.opt.disable(target=tt)
+                n_dis = len(w.raw_log()["penalty"])
+                if not any(w.target_flags()):
+                    twin = None
             check_limits(w, prop, "after construction")
             for i, c in enumerate(case["calls"]):
                 if tt is not None and c[0] in ("enable",) and c[1] == "target" and tt in _resolve(w, "target", c[2]):
                     continue
+                if tt is not None and c[0] == "reload" and n_dis is not None and (c[1] % max(1, len(w.raw_log()["penalty"]))) < n_dis:
+                    continue        # reloading a row logged before the switch-off would switch the target on again
                 if tt is not None and c[0] == "step" and (tt in _resolve(w, "target", c[1].get("enable_target")) or
                                                           tt in _resolve(w, "target", c[1].get("disable_target"))):
                     continue        # a per-call disable re-enables the target afterwards: it would no longer be 'disabled'
@@ -515,12 +523,18 @@ class C10:
                         raise OViolation(prop + ".disabled_target_influence", "%s: outcome %r, but %r when only the output of the disabled target %d is different"
                                          % (where, exc, e2, tt))
                     l1, l2 = w.raw_log(), twin.raw_log()
+                    if c[0] == "solve" and exc is not None:
+                        # the failed solve restored iteration 0 (and logged it): the target is active again from here on
+                        twin = None
+                        continue
                     if [list(x) for x in l1["knobs"]] != [list(x) for x in l2["knobs"]] or \
-                            [float(p) for p in l1["penalty"]] != [float(p) for p in l2["penalty"]] or list(l1["alpha"]) != list(l2["alpha"]) or \
+                            [float(p) for p in l1["penalty"][n_dis:]] != [float(p) for p in l2["penalty"][n_dis:]] or list(l1["alpha"]) != list(l2["alpha"]) or \
                             w.knob_values() != twin.knob_values():
                         raise OViolation(prop + ".disabled_target_influence", "%s: the knob trajectory / penalties differ when only the output of the disabled target %d is different"
                                          % (where, tt))
                     count("twin_calls_compared")
+                    if c[0] == "solve" and exc is not None:
+                        twin = None         # the failed solve restored iteration 0, where the target is active again
             count("events", w.n_eval)
         except OViolation as v:
             return {"violation": dict(v.to_json(), step=i), "nontrivial": steps_checked > 0 or stats.get("disabled_knob_checks", 0) > 0,
